@@ -400,3 +400,128 @@ def const_int(o):
     if o['k'] == 'const' and o.get('ck') == 'int':
         return o['v']
     return None
+
+
+# ----------------------------------------------------------------------
+# light-weight intra-procedural value tracing (flow-insensitive)
+# ----------------------------------------------------------------------
+def rv_operands(rv):
+    """operands appearing in an rvalue"""
+    out = []
+    for key in ('op', 'a', 'b'):
+        if key in rv and isinstance(rv[key], dict):
+            out.append(rv[key])
+    out.extend(rv.get('ops', []))
+    return out
+
+
+def rv_places(rv):
+    """places read or borrowed by an rvalue (besides operands)"""
+    if rv['k'] in ('ref', 'rawptr', 'discr'):
+        return [rv['p']]
+    return []
+
+
+def place_locals(p):
+    """base local plus index locals"""
+    out = [p['l']]
+    for e in p['pr']:
+        if e['k'] == 'index':
+            out.append(e['l'])
+    return out
+
+
+def sources(inst, x, _seen=None):
+    """Trace a local (int) or operand backwards through copies, moves, casts
+    and reborrows `&(*l)`.  Returns a list of terminal sources:
+       ('const', operand) | ('call', bb, term) | ('arg', n) | ('rv', bb, rv) | ('proj', place)
+    Flow-insensitive: every definition of each local on the way is followed."""
+    if _seen is None:
+        _seen = set()
+    if isinstance(x, dict):
+        if x['k'] == 'const' or x['k'] == 'rtcheck':
+            return [('const', x)]
+        p = x['p']
+        if p['pr']:
+            return [('proj', p)]
+        l = p['l']
+    else:
+        l = x
+    if l in _seen:
+        return []
+    _seen.add(l)
+    out = []
+    if 1 <= l <= inst.arg_count:
+        out.append(('arg', l))
+    for (b, i, d) in inst.assignments_to(l):
+        if i == 'term':
+            out.append(('call', b, d))
+            continue
+        rv = d
+        k = rv['k']
+        if k == 'use' or k == 'cast':
+            out.extend(sources(inst, rv['op'], _seen))
+        elif k == 'ref' and len(rv['p']['pr']) == 1 and rv['p']['pr'][0]['k'] == 'deref':
+            out.extend(sources(inst, rv['p']['l'], _seen))
+        else:
+            out.append(('rv', b, rv))
+    return out
+
+
+def uses(inst, l):
+    """Every syntactic use of local l: list of (bb, role, node).
+    roles: 'operand' (in rvalue), 'borrow' (ref/rawptr/discr of a place based on l),
+           'arg<i>', 'func', 'switch', 'assert', 'lhs-base' (assignment through a projection of l),
+           'drop'."""
+    out = []
+
+    def op_uses(o):
+        return o['k'] in ('copy', 'move') and l in place_locals(o['p'])
+    for b in inst.rpo():
+        for s in inst.blocks[b]['stmts']:
+            if s['k'] == 'assign':
+                if s['p']['pr'] and l in place_locals(s['p']):
+                    out.append((b, 'lhs-base', s))
+                rv = s['rv']
+                for o in rv_operands(rv):
+                    if op_uses(o):
+                        out.append((b, 'operand', s))
+                for p in rv_places(rv):
+                    if l in place_locals(p):
+                        out.append((b, 'borrow', s))
+            elif s['k'] == 'setdiscr':
+                if l in place_locals(s['p']):
+                    out.append((b, 'lhs-base', s))
+            elif s['k'] == 'assume':
+                if op_uses(s['op']):
+                    out.append((b, 'operand', s))
+        t = inst.term(b)
+        k = t['k']
+        if k == 'call':
+            for i, a in enumerate(t['args']):
+                if op_uses(a):
+                    out.append((b, f'arg{i}', t))
+            c = t['callee']
+            if 'indirect' in c and op_uses(c['indirect']):
+                out.append((b, 'func', t))
+            if t['dest']['pr'] and l in place_locals(t['dest']):
+                out.append((b, 'lhs-base', t))
+        elif k == 'switch':
+            if op_uses(t['op']):
+                out.append((b, 'switch', t))
+        elif k == 'assert':
+            if op_uses(t['cond']):
+                out.append((b, 'assert', t))
+        elif k == 'drop':
+            if l in place_locals(t['p']):
+                out.append((b, 'drop', t))
+    return out
+
+
+def fn_const_instance(prog, o):
+    """If operand is a constant fn item (FnDef ZST), return its callee record."""
+    if o['k'] == 'const':
+        t = prog.types[o['ty']]
+        if t['kind'] == 'fndef':
+            return t.get('callee') or {'path': t['path'], 'inst': None}
+    return None
